@@ -12,6 +12,9 @@
 (*   loaded[gi][mi][i] token the loader returns for group gi, metric mi,   *)
 (*                     subject i ("missing" for None)                      *)
 (*   lgroups, lmetrics group / metric names of the loaded object           *)
+(*   lines             the physical lines of the file (with their LF)      *)
+(*   celltext[i][j]    the text of what result i reported for column j     *)
+(*                     (Python's str of the value, empty for absent)       *)
 (*   out               "ok" | "raise" (writing or loading raised)          *)
 (***************************************************************************)
 EXTENDS Tsv, Json, IOUtils, TLC
@@ -40,5 +43,9 @@ T_GroupsRecovered   == Ok => Range(R.lgroups) = Range(R.groups) /\ Range(R.lmetr
 \* NaN / infinite / uncomputable come back as missing
 T_ReadBack == Ok => \A gi \in 1..NG : \A mi \in 1..NM : \A i \in 1..Len(R.subjects) :
                        R.loaded[gi][mi][i] = Loaded(R.reported[i][(gi - 1) * NM + mi])
+\* the physical lines: cells joined by TAB, minimal quoting with doubled quotes, terminated by LF
+T_HeaderText == Ok => R.lines[1] = RowText(<<R.first>> \o R.header)
+T_RowText    == Ok => \A i \in 1..Len(R.subjects) : R.lines[i + 1] = RowText(<<R.subjects[i]>> \o R.celltext[i])
+T_LineCount  == Ok => Len(R.lines) = Len(R.subjects) + 1
 T_NoColumnShift == Ok => \A gi \in 1..NG : \A mi \in 1..NM : Len(R.loaded[gi][mi]) = Len(R.subjects)
 =============================================================================
